@@ -331,6 +331,7 @@ def run_census(facts, res, rid, crates, roots, triage, class_rules, prop, findin
              "new": 0}
     used = set()
     by_key = {}
+    pending = {}   # (root, kind) -> [sites] that need the triage table
     for f in fns:
         tb = None
         for s in sites_of(f, facts):
@@ -353,25 +354,47 @@ def run_census(facts, res, rid, crates, roots, triage, class_rules, prop, findin
                 s.discharge = q
                 by_key.setdefault(("mech", q.split(":")[0]), []).append(s)
                 continue
-            k = s.key()
-            row = triage.get(k)
+            pending.setdefault((s.root(), s.kind), []).append(s)
+    for (root, kind), ss in sorted(pending.items()):
+        rest = []
+        # exact rows first (groups with mixed statuses are triaged site by site)
+        for s in ss:
+            row = triage.get(s.key())
             if row is None:
-                # fall back to producer-insensitive row "<root>/<kind>/*"
-                row = triage.get("%s/%s/*" % (s.root(), s.kind))
-                if row is not None:
-                    k = "%s/%s/*" % (s.root(), s.kind)
-            if row is None:
-                stats["new"] += 1
-                res.violation(rid, k, "undischarged panic-capable construct (%s%s) in %s: not guarded locally and not in the "
-                              "triage table" % (s.kind, (" on " + s.producer) if s.producer else "", s.fn.path), s.where())
+                rest.append(s)
                 continue
-            used.add(k)
+            used.add(s.key())
             if row["status"] == "finding":
                 stats["finding"] += 1
-                res.violation(row.get("rule", rid), row.get("finding_key", k), row["reason"], s.where())
+                res.violation(row.get("rule", rid), row.get("finding_key", s.key()), row["reason"], s.where())
             else:
                 stats["invariant"] += 1
-                res.ok(rid, k, s.where(), "%s: %s" % (row["status"], row["reason"]))
+                res.ok(rid, s.key(), s.where(), "%s: %s" % (row["status"], row["reason"]))
+        if not rest:
+            continue
+        gk = "%s/%s/*" % (root, kind)
+        row = triage.get(gk)
+        if row is None:
+            for s in rest:
+                stats["new"] += 1
+                res.violation(rid, s.key(), "undischarged panic-capable construct (%s%s) in %s: not guarded locally and not in the "
+                              "triage table" % (s.kind, (" on " + s.producer) if s.producer else "", s.fn.path), s.where())
+            continue
+        used.add(gk)
+        n = row.get("count", 1)
+        if len(rest) > n:
+            stats["new"] += len(rest) - n
+            res.violation(rid, gk + "+%d" % (len(rest) - n),
+                          "%d undischarged `%s` site(s) in %s, %d were audited (%s): new panic-capable construct(s) among %s" % (
+                              len(rest), kind, root, n, row["reason"][:80], [s.producer[:50] + " @" + str(s.line) for s in rest][:6]), rest[-1].where())
+            continue
+        if row["status"] == "finding":
+            stats["finding"] += len(rest)
+            res.violation(row.get("rule", rid), row.get("finding_key", gk), row["reason"], rest[0].where())
+        else:
+            stats["invariant"] += len(rest)
+            for s in rest:
+                res.ok(rid, gk, s.where(), "%s: %s" % (row["status"], row["reason"]))
     # mechanical / class groups as instances
     for (kind, why), ss in sorted(by_key.items(), key=str):
         res.rules[rid]["instances"] += len(ss)
